@@ -11,20 +11,25 @@ SPEC = {
              "'['-bearing bodies, tags with inner single spaces, runs of several spaces, tabs and special characters - never at the ends -, Host; in-file [Header: value] directives at generated "
              "positions for uri/uripost) rendered into uri / uripost / raw / http-json with layout knobs (blank lines, leading/trailing "
              "blanks, CRLF, missing final newline, padded lines, inline `uris`, JSON lines / pretty / array) and read for 1-3 passes "
-             "through the real provider built by config.DecodeAndValidate on a mem fs. Non-trivial = >= 2 entries and (a layout knob on, "
+             "through the real provider built by config.DecodeAndValidate on a mem fs, in one case of two with the documented provider option "
+             "`preload: true` (the file is loaded into memory by one LoadAmmo pass and replayed from there), so that every format and layout "
+             "is decoded through both reading paths. Non-trivial = >= 2 entries and (a layout knob on, "
              "or a directive after the first entry, or a binary body); distinct = hash of the case."),
     "floors": {"TestDecode/no_final_newline": 0.079, "TestDecode/uripost_zero_body": 0.08, "TestDecode/mid_file_directive": 0.15,
                "TestDecode/json_array": 0.02, "TestDecode/json_pretty": 0.02, "TestDecode/crlf": 0.05, "TestDecode/multi_pass": 0.4,
                "TestDecode/uripost_last_line_unterminated": 0.0013,
                "TestDecode/tag_inner_blank_run": 0.15, "TestDecode/tag_inner_tab": 0.08,
                "TestDecode/tag_inner_blank_run_uri": 0.03, "TestDecode/tag_inner_blank_run_uripost": 0.03,
-               "TestDecode/tag_inner_blank_run_raw": 0.03, "TestDecode/tag_inner_blank_run_jsonline": 0.03},
+               "TestDecode/tag_inner_blank_run_raw": 0.03, "TestDecode/tag_inner_blank_run_jsonline": 0.03,
+               "TestDecode/preload": 0.35, "TestDecode/preload_multi_pass": 0.2, "TestDecode/preload_json_array": 0.009,
+               "TestDecode/preload_json_pretty": 0.009, "TestDecode/preload_uri": 0.06, "TestDecode/preload_uripost": 0.06,
+               "TestDecode/preload_raw": 0.06, "TestDecode/preload_jsonline": 0.06, "TestDecode/preload_no_final_newline": 0.04},
     "manifest": {
         "technique": "model-based property testing (rapid): render a generated request model into each ammo format, decode with the real provider, compare; metamorphic over layout",
         "text": ("Each generated model is the oracle for the file rendered from it: the k-th delivered ammo must equal entry k mod E "
                  "(method, request URI, body bytes, tag, Host, effective headers with in-file directives applied in order and forgotten "
                  "at each pass), exactly passes*E items are delivered, then end of ammo and Run returns nil. Layout variants of the same "
-                 "model must not change anything."),
+                 "model must not change anything, and neither does reading the file with `preload: true`: the same model judges the streamed and the preloaded provider."),
         "note": ("URIs are restricted to characters net/url transmits verbatim; tags do not start/end with blanks (the one space after the URI / size delimits the tag, everything after it up to the trimmed line end is tag text, as is a JSON string); http/json bodies are "
                  "valid UTF-8; header names compared canonically; Content-Length may appear in raw requests."),
     },
